@@ -65,3 +65,7 @@ cfg("live_events", "T2", "S2", E="E2", ET="SplitT", ES="SplitS", pol="PolMixed",
 cfg("live_faults", "T1", "S1", nsteps=3, out=2, faults=True, live=True)
 cfg("live_addremove", "T2", "S2", IT="T1", nsteps=3, dt=3, events="AddRemove", out=2, live=True)
 cfg("coded_prio_stuck", "T2", "S2", E="E2", ET="SplitT", ES="SplitS", pol="PolMixed", nsteps=3, dt=3, events="Durations", prio_all=True, live=True)
+cfg("greedy33", "T3", "S3", nsteps=1)
+cfg("munkres33", "T3", "S3", pol="PolMunkres", nsteps=1)
+cfg("random33", "T3", "S3", pol="PolRandom", nsteps=1)
+cfg("munkres22_3steps", "T2", "S2", pol="PolMunkres", nsteps=3, out=2)
